@@ -233,6 +233,12 @@ def run_rules(mod, ctx: Ctx, only: Optional[set[str]] = None) -> None:
         if os.environ.get("SA_NO_FLAGS") != "1" and rep["inlined"]:
             inline_test_flags_repo(ctx.repo)
         n_canon += canon_repo(ctx.repo)
+        if os.environ.get("SA_NO_APPENDLOOPS") != "1":
+            from .canon2 import append_loops_repo
+
+            n_al = append_loops_repo(ctx.repo)
+            if n_al:
+                ctx.note(f"append loops rewritten as the comprehension they spell out (sa/canon2.py C19): {n_al}")
         if os.environ.get("SA_NO_ALIAS") != "1":
             from .canon2 import dead_alias_repo
 
